@@ -78,4 +78,4 @@ PROPS["C17"] = dict(
 _ALL = ["C%02d" % i for i in range(1, 21)]
 NOT_APPLICABLE = [dict(property_id=p, reason="check not built yet in this revision (planned in DESIGN.md section 3); not a limit of the technique")
                   for p in _ALL if p not in PROPS]
-HOOK_COMMITS = []
+HOOK_COMMITS = ["16e4c9c"]
